@@ -71,7 +71,7 @@ def worker(job):
         e = out.get('error_obj')
         return isinstance(e, (NetworkError, ProtocolError))
 
-    mode = {'ignore_length': False}
+    mode = {'ignore_length': False, 'rate_limited': False}
 
     def run(seq_pieces):
         responses = [{'pieces': p, 'then': t, 'method': m} for p, t, m in seq_pieces]
@@ -82,7 +82,7 @@ def worker(job):
             import functools
             from wpull.protocol.http.stream import Stream
             kwargs = {'stream_factory': functools.partial(Stream, ignore_length=True)}
-        outcomes, peer, net = httpdrive.run_sequence(responses, client_kwargs=kwargs)
+        outcomes, peer, net = httpdrive.run_sequence(responses, client_kwargs=kwargs, rate_limited=mode['rate_limited'])
         part.count('sequence_runs')
         return outcomes, peer, net
 
@@ -263,6 +263,7 @@ def worker(job):
         rp = common.unjson(job['replay'])
         seq = rp['seq']
         mode['ignore_length'] = bool(rp.get('ignore_length'))
+        mode['rate_limited'] = bool(rp.get('rate_limited'))
         if 'stalled_at' in rp:
             check_stall(seq[0], {'seq': seq})
         elif 'truncated_at' in rp:
@@ -276,6 +277,10 @@ def worker(job):
         k = rng.choice([1, 1, 2, 3, 4, 5])
         allow = None if rng.random() < 0.35 else core
         mode['ignore_length'] = False
+        # a fifth of the sequences run as under --limit-rate (connections carry a bandwidth limiter)
+        mode['rate_limited'] = rng.random() < 0.2
+        if mode['rate_limited']:
+            part.count('sequences_rate_limited')
         if rng.random() < 0.12:
             # one sequence in eight with --ignore-length (each response then ends with the connection)
             mode['ignore_length'] = True
@@ -305,7 +310,7 @@ def worker(job):
             if seq[-1]['classes']['framing'] == 'overrun0':
                 # one plain successor to witness whether the unread surplus poisons the connection
                 seq.append(httpgen.gen_response(rng, allow=['length']))
-        check_sequence(seq, {'seq': seq})
+        check_sequence(seq, {'seq': seq, 'rate_limited': mode['rate_limited']})
         if n % 7 == 0:
             part.sample({'sequence': [r['classes'] for r in seq], 'first_wire': seq[0]['wire'][:160]})
         # truncations of a single response
